@@ -992,3 +992,183 @@ twin('C16', 'ds-gettid-rename', DSPY, 'DemoStorage.getTid',
             return changes.getTid(oid)
         except ZODB.POSException.POSKeyError:
             return self.base.getTid(oid)''')
+
+# ---------------------------------------------------------------- C02
+MVCCPY = 'ZODB/mvccadapter.py'
+breaker('C02', 'fs-finish-callback-after-finish', 'C02.R1', FSPY,
+        'FileStorage.tpc_finish',
+        '''                    if f is not None:
+                        f(tid)
+                    self._finish(tid, *self._ude)''',
+        '''                    self._finish(tid, *self._ude)
+                    if f is not None:
+                        f(tid)''')
+breaker('C02', 'bs-finish-callback-after-hook', 'C02.R1', BSPY,
+        'BaseStorage.tpc_finish',
+        '''                if f is not None:
+                    f(self._tid)
+                u, d, e = self._ude
+                self._finish(self._tid, u, d, e)''',
+        '''                u, d, e = self._ude
+                self._finish(self._tid, u, d, e)
+                if f is not None:
+                    f(self._tid)''')
+breaker('C02', 'ms-finish-callback-last', 'C02.R1', MSPY,
+        'MappingStorage.tpc_finish',
+        '''        tid = self._tid
+        func(tid)
+
+        tdata = self._tdata''', '''        tid = self._tid
+
+        tdata = self._tdata''')
+breaker('C02', 'fs-finish-callback-outside-lock', 'C02.R1', FSPY,
+        'FileStorage.tpc_finish',
+        '''        with self._files.write_lock():
+            with self._lock:
+                if transaction is not self._transaction:
+                    raise StorageTransactionError(
+                        "tpc_finish called with wrong transaction")
+                try:
+                    tid = self._tid
+                    if f is not None:
+                        f(tid)''',
+        '''        if f is not None and transaction is self._transaction:
+            f(self._tid)
+        with self._files.write_lock():
+            with self._lock:
+                if transaction is not self._transaction:
+                    raise StorageTransactionError(
+                        "tpc_finish called with wrong transaction")
+                try:
+                    tid = self._tid''')
+breaker('C02', 'ds-finish-drops-callback', 'C02.R2', DSPY,
+        'DemoStorage.tpc_finish',
+        'tid = self.changes.tpc_finish(transaction, func)',
+        'tid = self.changes.tpc_finish(transaction)')
+breaker('C02', 'mvcc-callback-before-invalidate', 'C02.R2', MVCCPY,
+        'MVCCAdapterInstance.tpc_finish',
+        '''            self._base._invalidate_finish(tid, modified, self)
+            self._ltid = tid
+            func(tid)''', '''            func(tid)
+            self._base._invalidate_finish(tid, modified, self)
+            self._ltid = tid''')
+breaker('C02', 'undo-adapter-no-invalidate', 'C02.R2', MVCCPY,
+        'UndoAdapterInstance.tpc_finish',
+        '''            self._base._invalidate_finish(tid, self._undone, None)
+''', '')
+breaker('C02', 'load-before-maxtid', 'C02.R3', MVCCPY,
+        'MVCCAdapterInstance.load',
+        'r = self._storage.loadBefore(oid, self._start)',
+        'r = self._storage.loadBefore(oid, self._ltid)')
+breaker('C02', 'poll-start-without-lock', 'C02.R3', MVCCPY,
+        'MVCCAdapterInstance.poll_invalidations',
+        '''        with self._lock:
+            # So we must pick the greatest value.
+            self._start = p64(u64(max(ltid, self._ltid)) + 1)''',
+        '''        self._start = p64(u64(max(ltid, self._ltid)) + 1)
+        with self._lock:
+            # So we must pick the greatest value.''')
+breaker('C02', 'poll-start-ignores-invalidated-tid', 'C02.R3', MVCCPY,
+        'MVCCAdapterInstance.poll_invalidations',
+        'self._start = p64(u64(max(ltid, self._ltid)) + 1)',
+        'self._start = p64(u64(ltid) + 1)')
+breaker('C02', 'poll-start-off-by-one', 'C02.R3', MVCCPY,
+        'MVCCAdapterInstance.poll_invalidations',
+        'self._start = p64(u64(max(ltid, self._ltid)) + 1)',
+        'self._start = p64(u64(max(ltid, self._ltid)))')
+breaker('C02', 'start-moved-by-load', 'C02.R3', MVCCPY,
+        'MVCCAdapterInstance.sync',
+        '''        if force:
+            self._sync()''', '''        if force:
+            self._sync()
+            self._start = p64(u64(self._storage.lastTransaction()) + 1)''')
+breaker('C02', 'invalidate-without-lock', 'C02.R4', MVCCPY,
+        'MVCCAdapterInstance._invalidate',
+        '''        with self._lock:
+            self._ltid = tid''', '''        if True:
+            self._ltid = tid''')
+breaker('C02', 'invalidate-finish-without-adapter-lock', 'C02.R5', MVCCPY,
+        'MVCCAdapter._invalidate_finish',
+        '''        with self._lock:
+            for instance in self._instances:
+                if instance is not committing_instance:''',
+        '''        if True:
+            for instance in self._instances:
+                if instance is not committing_instance:''')
+breaker('C02', 'new-instance-not-registered', 'C02.R5', MVCCPY,
+        'MVCCAdapter.new_instance',
+        '''        with self._lock:
+            self._instances.add(instance)
+''', '')
+breaker('C02', 'close-releases-instance', 'C02.R5', CONNPY, 'Connection.close',
+        '''        if hasattr(self._storage, 'afterCompletion'):
+            self._storage.afterCompletion()
+
+        if primary:''', '''        if hasattr(self._storage, 'afterCompletion'):
+            self._storage.afterCompletion()
+        self._storage.release()
+
+        if primary:''')
+breaker('C02', 'boundary-does-not-invalidate-cache', 'C02.R6', CONNPY,
+        'Connection.newTransaction',
+        '''        self._cache.invalidate(invalidated)
+''', '''        pass
+''')
+breaker('C02', 'open-skips-new-transaction', 'C02.R6', CONNPY,
+        'Connection.open',
+        '''            self.newTransaction(None, False)
+''', '''            pass
+''')
+breaker('C02', 'load-uses-shared-handle', 'C02.R7', FSPY, 'FileStorage.load',
+        'h = self._read_data_header(pos, oid, _file)',
+        'h = self._read_data_header(pos, oid)')
+breaker('C02', 'loadserial-without-lock', 'C02.R7', FSPY,
+        'FileStorage.loadSerial',
+        '''        with self._lock:
+            pos = self._lookup_pos(oid)
+            while 1:''', '''        if True:
+            pos = self._lookup_pos(oid)
+            while 1:''')
+breaker('C02', 'pool-writer-announces-late', 'C02.R8', FSPY,
+        'FilePool.write_lock',
+        '''            self.writers += 1
+            while self.writing or self._out:
+                self._cond.wait()''', '''            while self.writing or self._out:
+                self._cond.wait()
+            self.writers += 1''')
+breaker('C02', 'pool-reader-does-not-wait', 'C02.R8', FSPY, 'FilePool.get',
+        '''            while self.writers:
+                self._cond.wait()
+            assert not self.writing''', '''            assert not self.writing''')
+breaker('C02', 'poll-last-transaction-under-instance-lock', 'C02.R9', MVCCPY,
+        'MVCCAdapterInstance.poll_invalidations',
+        '''        ltid = self._storage.lastTransaction()
+        # But at this precise moment, a transaction may be committed and
+        # we have already received the new tid, along with invalidations.
+        with self._lock:''', '''        with self._lock:
+            ltid = self._storage.lastTransaction()''')
+breaker('C02', 'store-flushes-pool-under-lock', 'C02.R9', FSPY,
+        'FileStorage.getTid',
+        '''        with self._lock:
+            pos = self._lookup_pos(oid)
+            h = self._read_data_header(pos, oid)''', '''        with self._lock:
+            self._files.flush()
+            pos = self._lookup_pos(oid)
+            h = self._read_data_header(pos, oid)''')
+twin('C02', 'poll-rename-ltid', MVCCPY, 'MVCCAdapterInstance.poll_invalidations',
+     '''        ltid = self._storage.lastTransaction()
+        # But at this precise moment, a transaction may be committed and
+        # we have already received the new tid, along with invalidations.
+        with self._lock:
+            # So we must pick the greatest value.
+            self._start = p64(u64(max(ltid, self._ltid)) + 1)''',
+     '''        storage_tid = self._storage.lastTransaction()
+        # But at this precise moment, a transaction may be committed and
+        # we have already received the new tid, along with invalidations.
+        with self._lock:
+            # So we must pick the greatest value.
+            newest = max(self._ltid, storage_tid)
+            self._start = p64(u64(newest) + 1)''')
+twin('C02', 'load-explicit-handle-keyword', FSPY, 'FileStorage.load',
+     'h = self._read_data_header(pos, oid, _file)',
+     'h = self._read_data_header(pos, oid, _file=_file)')
